@@ -9,7 +9,8 @@ B_OPS = [{"op": "read", "i": 0}, {"op": "clone", "i": 0}, {"op": "drop", "i": 0}
          {"op": "into_vec", "i": 0}, {"op": "into_mut", "i": 0}, {"op": "slice", "i": 0}]
 S_OPS = [{"op": "clone_s"}, {"op": "read_s"}, {"op": "slice_s"}]
 M_OPS = [{"op": "write", "i": 0}, {"op": "reserve", "i": 0, "n": 16}, {"op": "try_reclaim", "i": 0, "n": 6}, {"op": "freeze", "i": 0},
-         {"op": "drop", "i": 0}, {"op": "read", "i": 0}, {"op": "put", "i": 0}, {"op": "advance", "i": 0, "n": 1}]
+         {"op": "drop", "i": 0}, {"op": "read", "i": 0}, {"op": "put", "i": 0}, {"op": "advance", "i": 0, "n": 1}, {"op": "split_off", "i": 0},
+         {"op": "split_to", "i": 0}]
 # after an op that creates handle 1 (clone / clone_s / slice)
 B_OPS2 = [{"op": "read", "i": 1}, {"op": "drop", "i": 1}, {"op": "try_into_mut", "i": 1}, {"op": "into_vec", "i": 1}]
 
@@ -79,6 +80,12 @@ def programs(tier, seed):
             for conv in ("into_vec", "into_mut", "try_into_mut"):
                 canon.append({"init": init, "threads": [[{"op": conv, "i": 0}], dd]})
     canon.append({"init": {"repr": "prom", "len": 8, "off": 0, "give": False}, "threads": [[{"op": "clone_s"}, {"op": "drop", "i": 0}], [{"op": "clone_s"}, {"op": "drop", "i": 0}]]})
+    # one thread writes its piece and drops it; the other splits its own piece (a count that was 1 is touched again),
+    # drops the new piece and takes the rest of the buffer back
+    for sp in ("split_off", "split_to"):
+        canon.append({"init": {"repr": "sharedm", "len": 8, "kinds": ["M", "M"]},
+                      "threads": [[{"op": "write", "i": 0}, {"op": "drop", "i": 0}],
+                                  [{"op": sp, "i": 0}, {"op": "drop", "i": 1}, {"op": "try_reclaim", "i": 0, "n": 6}, {"op": "write", "i": 0}]]})
     rnd.shuffle(three)
     return canon + progs[:n] + three[: (0 if tier == "quick" else 300)]
 
